@@ -920,7 +920,11 @@ func chainCase(r *hlib.SplitMix64, gen string) row {
 		case want != nil && rq.Err != nil:
 			rw.Spec = fmt.Sprintf("probe for %s was replaced by an error although a MAC is known", rq.DstIP)
 		case want != nil && !bytes.Equal(rq.DstMAC, want):
-			rw.Spec = fmt.Sprintf("probe for %s is addressed to %s, expected %s", rq.DstIP, net.HardwareAddr(rq.DstMAC), want)
+			note := ""
+			if gw != nil && bytes.Equal(rq.DstMAC, gw) {
+				note = " (that is the gateway MAC; the host has a cache entry of its own, from the line the ARP scan printed for it)"
+			}
+			rw.Spec = fmt.Sprintf("probe for %s is addressed to %s, expected %s%s", rq.DstIP, net.HardwareAddr(rq.DstMAC), want, note)
 		case want != nil && o.FillOK && o.EthDst != hx(want):
 			rw.Spec = fmt.Sprintf("frame for %s has Ethernet destination %s, expected %s", rq.DstIP, o.EthDst, want)
 		case want != nil && !o.FillOK:
@@ -979,6 +983,12 @@ func muxCase(r *hlib.SplitMix64, gen string) row {
 	n := 2000 + r.Intn(2000)
 	rw := row{T: "mux", Gen: gen, Class: fmt.Sprintf("concurrent-%s-filler", name), Nontrivial: true}
 	macOf := func(i int) net.HardwareAddr {
+		switch i % 11 {
+		case 5: // odd but valid entries are entries too
+			return net.HardwareAddr{0, 0, 0, 0, 0, 0}
+		case 9:
+			return net.HardwareAddr{0xff, 0xff, 0xff, 0xff, 0xff, 0xff}
+		}
 		return net.HardwareAddr{2, 0x11, byte(i >> 24), byte(i >> 16), byte(i >> 8), byte(i)}
 	}
 	ipOf := func(i int) net.IP { return net.IP{10, byte(i >> 16), byte(i >> 8), byte(i)} }
